@@ -142,14 +142,39 @@ ResWord(t) ==
 
 Digits == {"0", "1", "2", "3", "4", "5", "6", "7", "8", "9"}
 BareDefault(s) == Len(s) > 0 /\ Chars(s) \subseteq (Digits \cup {"-"})
-\* a choice value that may be written without quotes: [sign] digits [. digits]
-IsNumber(s) ==
-    LET body == IF Len(s) > 0 /\ Ch(s, 1) \in {"-", "+"} THEN Drop(s, 1) ELSE s
-        dots == {i \in 1..Len(body) : Ch(body, i) = "."}
-    IN  /\ Len(body) > 0
-        /\ Chars(body) \subseteq (Digits \cup {"."})
-        /\ Cardinality(dots) <= 1
-        /\ Chars(body) \cap Digits # {}
+\* A default is written without quotes only if it consists of digits and minus signs: such a
+\* string is one bare token for the reader, whatever it is ("-", "--5", "5-3" included).
+\* Everything else - blanks around a number, "+3", "1_0", "1e5", other digits - is quoted.
+\* (BareDefault above.)
+\*
+\* A choice value is written without quotes if it is a number the way Python's float() reads
+\* one, provided the reader gives the very same string back: no surrounding blanks (float()
+\* would accept them, the token would lose them) and no "+" anywhere ("+" is the string
+\* concatenation token).
+Lower7(c) == CASE c = "I" -> "i" [] c = "N" -> "n" [] c = "F" -> "f" [] c = "T" -> "t" [] c = "Y" -> "y"
+               [] c = "A" -> "a" [] c = "E" -> "e" [] OTHER -> c
+\* digits, single underscores only between digits
+DigitPart(s) == /\ Len(s) > 0 /\ Chars(s) \subseteq (Digits \cup {"_"})
+                /\ Ch(s, 1) \in Digits /\ Ch(s, Len(s)) \in Digits
+                /\ \A i \in 1..(Len(s) - 1) : ~(Ch(s, i) = "_" /\ Ch(s, i + 1) = "_")
+Mantissa(m) ==
+    LET dots == {i \in 1..Len(m) : Ch(m, i) = "."} IN
+    IF dots = {} THEN DigitPart(m)
+    ELSE /\ Cardinality(dots) = 1
+         /\ LET d == CHOOSE i \in dots : TRUE
+                 a == Prefix(m, d - 1)  b == Drop(m, d)
+             IN  (a = "" \/ DigitPart(a)) /\ (b = "" \/ DigitPart(b)) /\ ~(a = "" /\ b = "")
+Exponent(x) == DigitPart(IF Len(x) > 0 /\ Ch(x, 1) \in {"+", "-"} THEN Drop(x, 1) ELSE x)
+UnsignedFloat(s) ==
+    \/ s \in {"inf", "infinity", "nan"}
+    \/ LET es == {i \in 1..Len(s) : Ch(s, i) = "e"} IN
+       IF es = {} THEN Mantissa(s)
+       ELSE Cardinality(es) = 1 /\ LET p == CHOOSE i \in es : TRUE IN Mantissa(Prefix(s, p - 1)) /\ Exponent(Drop(s, p))
+\* what float() accepts (ASCII, without the blanks it would strip)
+PyFloat(v) == LET s == Map(Lower7, v)
+                  body == IF Len(s) > 0 /\ Ch(s, 1) \in {"+", "-"} THEN Drop(s, 1) ELSE s
+              IN  Len(body) > 0 /\ UnsignedFloat(body)
+IsNumber(s) == PyFloat(s) /\ "+" \notin Chars(s)
 
 (* ======================= a tiny line writer ============================== *)
 \* out = [done |-> finished lines, cur |-> the line being written]
